@@ -307,7 +307,8 @@ def run(ctx):
     if at is not None:
         ctx.saw(at)
         got = variants(at.path)
-        ok = sorted(set(got)) == ['NoRuntimeSpecified', 'Timeout(timeout_type)'] or sorted(set(got)) == ['NoRuntimeSpecified', 'Timeout(%s)' % 'timeout_type']
+        tt_names = at.upvars_where(lambda ty: ty.endswith('::TimeoutType'))
+        ok = len(tt_names) == 1 and sorted(set(got)) == ['NoRuntimeSpecified', 'Timeout(%s)' % sorted(tt_names)[0]]
         ctx.ob('R04.5', 'apply_timeout constructs Timeout(<its argument>) and NoRuntimeSpecified only', ok, ctx.where(at), 'constructs %s' % got,
                construct='errors:apply_timeout', sites=got)
     acquire_error_mapping(ctx, r, cons, 'R04.5')
